@@ -49,6 +49,11 @@ struct Item {
   bool ready_at_return = false;
   std::uint64_t ready_seen_at = 0;
   bool by_coroutine = false;  // produced by a coroutine (completion through final_suspend / Next) instead of Promise::Set
+  // shared futures: somebody else waits on the same shared state: 1 a SubscribeInline callback attached before the wait, 2 another fiber in Wait(copy)
+  int other = 0;
+  int other_calls = 0;
+  Outcome other_got;
+  std::uint64_t other_at = 0;
 };
 
 constexpr std::size_t kCanaryBytes = 8192;
@@ -73,11 +78,13 @@ class Case final : public sim::CaseBase {
       it.after = static_cast<int>(g.Draw(kAfterCount));
       it.id = 10U * static_cast<std::uint32_t>(i + 1) + g.Noise(9);
       it.by_coroutine = g.Draw(3) == 2;
+      it.other = it.shared && g.Flip() ? 1 + static_cast<int>(g.Draw(2)) : 0;
       items.push_back(it);
     }
     if (kind == kMixed && n == 1) {
       kind = kUnique;
       items[0].shared = false;
+      items[0].other = 0;
     }
   }
 
@@ -89,7 +96,7 @@ class Case final : public sim::CaseBase {
     j.Key("futures").Arr();
     static const char* outs[] = {"value", "error", "exception"};
     for (auto& it : items) {
-      j.Obj().KV("completes_at_ns", it.at).KV("outcome", outs[it.outcome]).KV("shared", it.shared).KV("produced_by", it.by_coroutine ? "coroutine" : "promise").KV("consumed_afterwards_by", kAfterNames[it.after]).End();
+      j.Obj().KV("completes_at_ns", it.at).KV("outcome", outs[it.outcome]).KV("shared", it.shared).KV("produced_by", it.by_coroutine ? "coroutine" : "promise").KV("consumed_afterwards_by", kAfterNames[it.after]).KV("other_waiter", it.other == 0 ? "none" : it.other == 1 ? "SubscribeInline callback attached before the wait" : "another fiber in Wait(copy)").End();
     }
     j.EndArr();
   }
@@ -350,6 +357,30 @@ class Case final : public sim::CaseBase {
         }
       }
     }
+    for (std::size_t i = 0; i < n; ++i) {
+      Item& it = items[i];
+      if (it.other == 1) {
+        SIM_PROBE("shared_input_has_another_callback");
+        sf[i].SubscribeInline([this, i](const yaclib::Result<T, E>& r) {
+          ++items[i].other_calls;
+          items[i].other_got = sim::Observe(r, "SubscribeInline callback of another waiter");
+          items[i].other_at = sim::Seq();
+        });
+      } else if (it.other == 2) {
+        SIM_PROBE("shared_input_has_another_blocked_waiter");
+        ts.emplace_back([this, i, copy = sf[i]] {
+          yaclib::Wait(copy);
+          sim::ReuseDeadFrames();
+          if (!copy.Ready()) {
+            sim::Fail("RETURNED_BEFORE_READY", "Wait(copy) of another fiber returned but shared future %zu is not Ready", i);
+            return;
+          }
+          ++items[i].other_calls;
+          items[i].other_got = sim::Observe(copy.Get(), "Get const& of another waiter after its Wait");
+          items[i].other_at = sim::Seq();
+        });
+      }
+    }
     const std::uint64_t t0 = sim::NowNs();
     wait_invoke = sim::Seq();
     const bool ok = CallIt();
@@ -407,6 +438,11 @@ class Case final : public sim::CaseBase {
       const bool has_cont = it.after == kThenInlineGet || it.after == kDetachInline;
       SIM_CHECK(it.cont_calls == (has_cont ? 1 : 0), has_cont && it.cont_calls == 0 ? "LOST" : "DUPLICATE", "future %zu: continuation attached after the wait ran %d times", i,
                 it.cont_calls);
+      if (it.other != 0) {
+        SIM_CHECK(it.other_calls == 1, it.other_calls == 0 ? "LOST" : "DUPLICATE", "shared future %zu: the other waiter was released %d times", i, it.other_calls);
+        SIM_CHECK(it.other_got == want, "WRONG_RESULT", "shared future %zu: the other waiter saw %s, its producer set %s", i, it.other_got.Str().c_str(), want.Str().c_str());
+        SIM_CHECK(it.set_invoke != 0 && it.set_invoke < it.other_at, "EARLY", "shared future %zu: the other waiter was released before its producer had begun to fulfil it", i);
+      }
       if (it.ready_at_return) {
         SIM_CHECK(it.set_invoke != 0 && it.set_invoke < it.ready_seen_at, "EARLY", "future %zu was Ready at return although its producer had not begun to fulfil it", i);
       }
